@@ -13,8 +13,8 @@ import (
 )
 
 var (
-	regFlags         = regexp.MustCompile(`flags=\(([^)]+)\)`)
-	regProfileHeader = regexp.MustCompile(` {\n`)
+	regFlags      = regexp.MustCompile(`flags=\(([^)]+)\)`)
+	regHeaderLine = regexp.MustCompile(`(?m)^.*\S *{$`)
 )
 
 type Complain struct {
@@ -30,19 +30,36 @@ func init() {
 	})
 }
 
-func (b Complain) Apply(opt *Option, profile string) (string, error) {
-	flags := []string{}
-	matches := regFlags.FindStringSubmatch(profile)
-	if len(matches) != 0 {
-		flags = strings.Split(matches[1], ",")
-		if slices.Contains(flags, "complain") {
-			return profile, nil
+// setHeaderFlags applies edit to the flags of each profile header of the
+// profile, one header at a time.
+func setHeaderFlags(profile string, edit func(flags []string) []string) string {
+	return regHeaderLine.ReplaceAllStringFunc(profile, func(header string) string {
+		if strings.HasPrefix(strings.TrimSpace(header), "#") {
+			return header
 		}
-	}
-	flags = append(flags, "complain")
-	strFlags := " flags=(" + strings.Join(flags, ",") + ") {\n"
+		flags := []string{}
+		matches := regFlags.FindStringSubmatch(header)
+		if len(matches) != 0 {
+			flags = strings.Split(matches[1], ",")
+		}
+		newFlags := edit(slices.Clone(flags))
+		if slices.Equal(flags, newFlags) {
+			return header
+		}
+		header = regFlags.ReplaceAllLiteralString(header, "")
+		header = strings.TrimSuffix(strings.TrimSuffix(header, "{"), " ")
+		if len(newFlags) == 0 {
+			return strings.TrimSuffix(header, " ") + " {"
+		}
+		return header + " flags=(" + strings.Join(newFlags, ",") + ") {"
+	})
+}
 
-	// Remove all flags definition, then set manifest' flags
-	profile = regFlags.ReplaceAllLiteralString(profile, "")
-	return regProfileHeader.ReplaceAllLiteralString(profile, strFlags), nil
+func (b Complain) Apply(opt *Option, profile string) (string, error) {
+	return setHeaderFlags(profile, func(flags []string) []string {
+		if slices.Contains(flags, "complain") {
+			return flags
+		}
+		return append(flags, "complain")
+	}), nil
 }
